@@ -1,5 +1,5 @@
 """Generic check flow for one property (see DESIGN.md 2.3 / 2.4)."""
-import json, os, shutil, sys, time
+import json, os, re, shutil, sys, time
 from . import core
 
 
@@ -28,6 +28,8 @@ def sequences(ops):
 
 
 HBIN = [None]   # harness binary used by this check run (set in check_property)
+STRIP = {}      # mode -> compiled regexes removed from result lines before comparison (the property's own view of a
+                # result line shared with another property: what this property does not speak about is not compared)
 
 
 def run_pair(mode, ops_lines, work, tag, go_env=None, timeout=3600):
@@ -45,6 +47,9 @@ def run_pair(mode, ops_lines, work, tag, go_env=None, timeout=3600):
         note = (note or "") + f" zmodel exited {rc2}: {err[-1500:]}"
     go = read_lines(gop) if os.path.exists(gop) else []
     lean = read_lines(lp) if os.path.exists(lp) else []
+    for rx in STRIP.get(mode, []):
+        go = [rx.sub("", x) for x in go]
+        lean = [rx.sub("", x) for x in lean]
     return core.compare(ops_lines, go, lean), go, lean, note
 
 
@@ -85,6 +90,10 @@ def check_property(prop, cfg, tier, seed, replay=None):
     import atexit
     atexit.register(lambda: shutil.rmtree(work, ignore_errors=True))
     known = core.load_known()
+    STRIP.clear()
+    for m in cfg.get("modes", []):
+        if m.get("strip"):
+            STRIP[m["name"]] = [re.compile(x) for x in m["strip"]]
     violations = []      # dicts: descriptor, replay payload, no_input (bool)
     known_hits = {}
     obligations, discharged = [], []
@@ -95,8 +104,11 @@ def check_property(prop, cfg, tier, seed, replay=None):
 
     # 1-3: regenerate, build, audit (under the shared build lock)
     with core.Lock():
-        wanted = cfg.get("regen", [])
-        for name, ok, out in core.regen(log):
+        regen_res = core.regen(log)
+        wanted = set(cfg.get("regen", []))
+        if cfg.get("module"):
+            wanted |= core.regen_items_in_cone(core.import_cone([cfg["module"]]))
+        for name, ok, out in regen_res:
             # charged only for the regenerated items this property depends on (exact name, or prefix ending in ':')
             if not any(name == w or (w.endswith(":") and name.startswith(w)) or name == w.split(":")[0] + ":build" for w in wanted):
                 continue
@@ -104,12 +116,16 @@ def check_property(prop, cfg, tier, seed, replay=None):
             if ok: discharged.append(f"regen:{name}")
             else: broken.append(dict(what=f"regen:{name}", detail=out[-1500:]))
         targets = [cfg["module"]] if cfg.get("module") else []
-        ok, out = core.lake_build(targets + ["zmodel"], log)
-        lean_ok = ok
-        if not ok:
-            broken.append(dict(what="lake build " + " ".join(targets), detail=core.failed_decls(out)))
-            # the driver may still be buildable even when a proof broke
-            ok2, _ = core.lake_build(["zmodel"], log)
+        # the property's own module and the driver are separate obligations: a proof module that broke must
+        # not hide the driver, and a driver that does not build is not a broken proof of this property
+        lean_ok = True
+        if targets:
+            lean_ok, out = core.lake_build(targets, log)
+            if not lean_ok:
+                broken.append(dict(what="lake build " + " ".join(targets), detail=core.failed_decls(out)))
+        ok2, out2 = core.lake_build(["zmodel"], log)
+        if not ok2:
+            broken.append(dict(what="lake build zmodel (model driver)", detail=core.failed_decls(out2)))
         axioms = {}
         theorems = cfg.get("theorems", [])
         if theorems:
